@@ -770,6 +770,7 @@ def corr_as_curl(chk, drv, tbl, auto, variants, n):
         chk.case("as_curl", key=rin, nontrivial=True, sample={"in": rin, "impl": cmd})
         chk.feature(f"as_curl:flow={rin['flow']}")
         chk.feature(f"as_curl:media={kw.get('media_type')}")
+        chk.feature(f"as_curl:prepared-request-wf={m['wf']}")
         cmd = canon_boundary(cmd)
         m["cmd"] = canon_boundary(m["cmd"])
         if m["sem"] is not None and m["sem"]["kind"] == "request":
